@@ -298,8 +298,8 @@ class OAGDatabase(WritableDatabase):
             flight_id,
             origin,
             destination,
-            e.efffrom,
-            e.effto,
+            effective_from,
+            effective_to,
             e.days,
             e.deptim,
             e.arrtim,
